@@ -330,6 +330,11 @@ impl VirtualSystem {
         // TODO Support AT_FDCWD
         const _POSIX_SYMLOOP_MAX: i32 = 8;
 
+        // An empty pathname does not name the current directory.
+        if path.as_unix_str().is_empty() {
+            return Err(Errno::ENOENT);
+        }
+
         let mut path = Cow::Borrowed(path);
         for _count in 0.._POSIX_SYMLOOP_MAX {
             let resolved_path = self.resolve_relative_path(&path);
@@ -409,6 +414,10 @@ impl VirtualSystem {
         flags: EnumSet<OpenFlag>,
         mode: Mode,
     ) -> Result<(Rc<RefCell<Inode>>, bool, bool)> {
+        // An empty pathname does not name the current directory.
+        if path.to_bytes().is_empty() {
+            return Err(Errno::ENOENT);
+        }
         let path = self.resolve_relative_path(Path::new(UnixStr::from_bytes(path.to_bytes())));
         let umask = self.current_process().umask;
 
